@@ -45,7 +45,8 @@ WATCHED = {"compile", "exec", "builtins.input", "os.system", "subprocess.Popen",
            "os.exec", "os.posix_spawn", "os.spawn", "os.fork"}
 BLOCKED = {"os.system", "subprocess.Popen", "urllib.Request", "os.exec", "os.posix_spawn", "os.spawn", "os.fork"}
 
-_ST = {"armed": False, "busy": False, "events": [], "installed": False}
+_ST = {"armed": False, "busy": False, "events": [], "installed": False, "texts": ()}
+IN_SCOPE_FUNCTIONS = {"vy_eval", "function_call", "exp2_or_eval", "get_input"}
 _AST_FILE = os.path.normcase(os.path.realpath(ast.__file__))
 
 
@@ -80,9 +81,19 @@ def _hook(event, args):
                 # a code object compiled from an AST (compile(ast_obj,...)): audit gives None
                 src = ""
             caller = f1 if not parse_only else f2
-            ev.append(("compile", str(src), bool(parse_only),
+            src = str(src)
+            chain = ()
+            if not parse_only and any(t in src for t in st["texts"]):
+                # which of the package's functions is this compile() working for?
+                names, f, n = [], f1, 0
+                while f is not None and n < 60:
+                    if (os.sep + "vyxal" + os.sep) in f.f_code.co_filename:
+                        names.append(f.f_code.co_name)
+                    f, n = f.f_back, n + 1
+                chain = tuple(names)
+            ev.append(("compile", src, bool(parse_only),
                        f1.f_code.co_name, f2.f_code.co_name if f2 is not None else "",
-                       caller.f_code.co_filename if caller is not None else ""))
+                       caller.f_code.co_filename if caller is not None else "", chain))
         elif event == "exec":
             co = args[0]
             names = []
@@ -97,6 +108,8 @@ def _hook(event, args):
             ev.append(("input", repr(args[0]) if args else ""))
         elif event == "open":
             ev.append(("open", repr(args[0])[:200], repr(args[1]) if len(args) > 1 else ""))
+            if MARK in repr(args[0]):
+                raise Blocked("C19 harness: host effect blocked: open")
         else:
             ev.append(("side", event, " ".join(repr(a)[:200] for a in args)))
             if event in BLOCKED:
@@ -159,8 +172,9 @@ def where_raised(exc):
     return "pre"
 
 
-def run_impl(prog, inputs, flags, online, count_prints=False):
+def run_impl(prog, inputs, flags, online, count_prints=False, texts=()):
     """One real run of execute_vyxal.  Returns the observation record (never raises)."""
+    _ST["texts"] = tuple(t for t in texts if len(t.strip()) >= 2 and (MARK in t or not is_plain_literal(t.strip())))
     import vyxal.main as M
     ensure_hook()
     out = RecDict()
@@ -220,6 +234,14 @@ def str_constants(src):
     return None
 
 
+def is_plain_literal(t):
+    try:
+        ast.literal_eval(t)
+        return True
+    except Exception:  # noqa: BLE001
+        return False
+
+
 def compiled_user_text(src, texts):
     """Is one of the user's texts compiled as CODE by this source, i.e. does it occur in it
     outside every string constant?  (The transpiled program legitimately contains the
@@ -227,7 +249,7 @@ def compiled_user_text(src, texts):
     s = src.strip()
     for t in texts:
         ts = t.strip()
-        if len(ts) < 2:
+        if len(ts) < 2 or (MARK not in ts and is_plain_literal(ts)):
             continue
         if s == ts:
             return t
@@ -263,7 +285,9 @@ def judge(rec, texts, flags="", expect_raise=None, expect_out1=None):
     for e in rec["events"]:
         if e[0] == "compile" and not e[2]:
             hit = compiled_user_text(e[1], texts)
-            if hit is not None:
+            if hit is not None and "sympy" in e[5] and not (set(e[6]) & IN_SCOPE_FUNCTIONS):
+                bad.append(("NOTE:sympy-evaluates-text", f"user text {hit[:60]!r} reaches sympy's parser ({e[3]}): {e[1][:80]!r}"))
+            elif hit is not None:
                 bad.append(("C19:compile-user-text", f"user text {hit[:60]!r} compiled as Python by {e[3]} ({os.path.basename(e[5])}): {e[1][:80]!r}"))
         elif e[0] == "exec" and e[2]:
             bad.append(("C19:exec-user-text", f"code object with tainted names {e[2][:3]} executed"))
@@ -285,19 +309,35 @@ def judge(rec, texts, flags="", expect_raise=None, expect_out1=None):
         bad.append(("C19:exit-without-record", "sys.exit without an error report in online_output[2]"))
     if expect_raise is True and not (err == "SystemExit" and "Traceback" in rec["out2"]):
         bad.append(("C19:error-not-recorded", f"program raises; expected traceback in online_output[2] and SystemExit, got err={err} out2={rec['out2'][-60:]!r}"))
-    if expect_raise is False and err is not None:
+    if expect_raise is False and err is not None and not (rec["where"] == "post" and err != "SystemExit"):
         bad.append(("C19:unexpected-error", f"err={err} {rec['msg'][:60]} out2={rec['out2'][-80:]!r}"))
     if expect_out1 is not None and rec["out1"] != expect_out1:
         bad.append(("C19:output-record", f"online_output[1] = {rec['out1'][:80]!r}, expected {expect_out1[:80]!r}"))
     return bad, ninput
 
 
+def limit_memory():
+    """safety net in the forked workers: a runaway program gets MemoryError, not the machine"""
+    if not _ST.get("limited"):
+        _ST["limited"] = True
+        try:
+            import resource
+            soft, hard = resource.getrlimit(resource.RLIMIT_AS)
+            want = 4 << 30
+            if hard == resource.RLIM_INFINITY or want < hard:
+                resource.setrlimit(resource.RLIMIT_AS, (want, hard))
+        except Exception:  # noqa: BLE001
+            pass
+
+
 def oracle_case(case):
     """module-level worker: one online run judged; optional differential offline run"""
     V.import_repo()
+    if case.get("limit"):
+        limit_memory()
     prog, inputs, flags = case["prog"], case["inputs"], case["flags"]
     texts = list(case.get("texts", [])) + list(inputs)
-    rec = run_impl(prog, inputs, flags, True)
+    rec = run_impl(prog, inputs, flags, True, texts=texts)
     bad, ninput = judge(rec, texts, flags, case.get("raises"), case.get("out1"))
     diff = None
     if case.get("diff") and rec["err"] is None:
@@ -350,8 +390,10 @@ def fixed_cases():
     add("1,2", flags="o", out1="1\n2\n", raises=False)
     add("7", flags="O", out1="", raises=False)
     for fl, exp in (("j", "1\n2\n3\n"), ("S", "1 2 3\n"), ("s", "6\n"), ("d", "6\n"), ("l", "3\n"), ("G", "3\n"), ("g", "1\n"),
-                    ("L", None), ("C", None), ("…", None), ("P", "[1, 2, 3]\n")):
+                    ("…", None), ("P", "[1, 2, 3]\n")):
         add("3ɾ", flags=fl, out1=exp, raises=False)
+    add("⟨`ab`|`c`⟩", flags="L", raises=False)
+    add("⟨`ab`|`c`⟩", flags="C", raises=False)
     for fl, exp in (("W", "⟨ 1 | 2 | 3 ⟩\n"), ("J", "1\n2\n3\n"), ("ṡ", "1 2 3\n"), ("Ṫ", "6\n")):
         add("1 2 3", flags=fl, out1=exp, raises=False)
     add("1", flags="c", out1="1\n", raises=False)
@@ -406,21 +448,33 @@ def fixed_cases():
 
 
 class TaintGen(PG.ProgGen):
-    """core grammar + every printing element + E, dagger, E-dot; string literals carry a payload"""
+    """core grammar + every printing element + E, dagger, E-dot; string literals carry a
+    payload.  E is only ever emitted right after a string literal or an input read: E on a
+    NUMBER is 2**n, and a chain of those is an uninterruptible big-integer power."""
+
+    def tainted_string(self):
+        p = self.rng.choice(PAYLOADS + LITERALS)
+        return [("`", PG.CODE), (p, PG.PAYLOAD, "string"), ("`", PG.CLOSER)]
 
     def literal(self):
-        r = self.rng
-        if r.random() < 0.45:
-            p = r.choice(PAYLOADS + LITERALS)
-            return [("`", PG.CODE), (p, PG.PAYLOAD, "string"), ("`", PG.CLOSER)]
+        if self.rng.random() < 0.45:
+            return self.tainted_string()
         return super().literal()
+
+    def element(self):
+        r = self.rng
+        x = r.random()
+        if x < 0.22:
+            src = self.tainted_string() if r.random() < 0.7 else [("?", PG.CODE)]
+            return src + [(r.choice(["E", "E", "E,", "†", "Ė", "E" + r.choice(PRINTERS)]), PG.CODE)]
+        return super().element()
 
 
 def random_cases(rng, n, diff=False):
     if diff:
         elements = [e for e in PG.CORE_ELEMENTS if e not in "†?"] + PRINTERS * 2
     else:
-        elements = PG.CORE_ELEMENTS + PRINTERS * 2 + ["E", "E", "E", "†", "†", "Ė", "Ė", "?"]
+        elements = PG.CORE_ELEMENTS + PRINTERS * 2 + ["†", "Ė", "?"]
     g = TaintGen(rng, elements=elements, with_break=True, with_functions=True, with_modifiers=True,
                  payload_chars=list("abz019 "), max_items=4) if not diff else PG.ProgGen(
         rng, elements=elements, payload_chars=list("abz019 "), max_items=4)
@@ -435,7 +489,7 @@ def random_cases(rng, n, diff=False):
             inputs = [rng.choice(PAYLOADS + LITERALS) for _ in range(rng.randrange(0, 3))]
             flags = rng.choice(["", "", "", "j", "J", "W", "a", "c", "o", "O", "Ṡ", "S", "s"])
             texts = [p for p in PAYLOADS + LITERALS if p in prog]
-        out.append({"prog": prog, "inputs": inputs, "flags": flags, "texts": texts, "diff": diff})
+        out.append({"prog": prog, "inputs": inputs, "flags": flags, "texts": texts, "diff": diff, "limit": True})
     return out
 
 
@@ -446,7 +500,7 @@ def oracle(env):
     rnd = random_cases(env.rng, env.budget(700, 6000))
     dif = random_cases(env.rng, env.budget(250, 2500), diff=True)
     for c in fixed[:40]:
-        c["diff"] = True
+        c["diff"] = "c" not in c["flags"] and "h" not in c["flags"]
     cases = fixed + rnd + dif
     res = V.pmap(oracle_case, cases, timeout=4, procs=min(V.NPROC, 8))
     stats = {"ok": 0, "timeout": 0, "exc": 0, "raised_recorded": 0, "finished": 0, "f14": 0, "host_input_reads": 0,
@@ -454,6 +508,7 @@ def oracle(env):
     nev = {}
     keys = []
     f14_inputs = []
+    sympy_notes = []
     for c, (st, r) in zip(cases, res):
         inp = {"program": c["prog"], "inputs": c["inputs"], "flags": c["flags"], "online": True}
         if st == "timeout":
@@ -474,6 +529,11 @@ def oracle(env):
         if r["diff"] is not None:
             stats["diff_compared"] += 1
         for cls, what in r["bad"]:
+            if cls.startswith("NOTE:"):
+                if len(sympy_notes) < 6:
+                    sympy_notes.append({"input": inp, "what": what})
+                stats["sympy_text_evaluations_noted"] = stats.get("sympy_text_evaluations_noted", 0) + 1
+                continue
             if cls == "C19:implicit-output-raises":
                 stats["f14"] += 1
                 if len(f14_inputs) < 8:
@@ -487,6 +547,7 @@ def oracle(env):
     env.note("oracle_runs", {"fixed": len(fixed), "random_tainted": len(rnd), "random_differential": len(dif), **stats})
     env.note("audit_event_counts", nev)
     env.note("implicit_output_raises_examples", f14_inputs)
+    env.note("sympy_text_evaluation_reached_NOT_judged", sympy_notes)
     env.sample({"oracle_case": cases[len(fixed) + 3]})
     env.sample({"oracle_case": fixed[60]})
 
@@ -854,7 +915,7 @@ def correspondence(env):
                      "trace/result of Model.Online.vy_eval_*", {"trace": meta[i]["impl_trace"], "result": meta[i]["impl_result"]})
         if meta[i]["online"] and ("PyEval" in meta[i]["impl_trace"] or (meta[i]["impl_result"] == "RValue" and not meta[i]["literal"])):
             env.fail({"function": "vy_eval", "text": meta[i]["text"], "online": True},
-                     f"vy_eval evaluates a non-literal online: trace {meta[i]['impl_trace']}, result {meta[i]['impl_result']}", cls="C19:compile-user-text")
+                     f"vy_eval does not treat the text as a literal-or-string online: trace {meta[i]['impl_trace']}, result {meta[i]['impl_result']}", cls="C19:compile-user-text")
     env.count(len(cases), (f"eval:{m['text']}:{m['online']}" for m in meta))
     dist = {"literal": sum(m["literal"] for m in meta), "evaluable_nonliteral": sum(m["evaluable"] and not m["literal"] for m in meta),
             "neither": sum(not m["evaluable"] and not m["literal"] for m in meta), "total": len(meta)}
@@ -879,7 +940,7 @@ def correspondence(env):
         meta.append({"value": pval_coq(t), "online": o, "end": e, "impl_trace_len": len(tr), "impl_trace_head": tr[:3]})
         if o and host:
             env.fail({"function": "vy_print", "value": pval_coq(t), "end": e, "online": True}, f"host stdout received {host[:60]!r}", cls="C19:host-stdout")
-        texts_by_tree.setdefault((pval_coq(t), e), {})[o] = text
+        texts_by_tree.setdefault((repr(t), e), {})[o] = (text, pval_coq(t))
     chk = "fun c => match c with ((o, v), tr) => effs_eqb (print_trace (md o) v) tr end"
     ok, bad, logs = env.coq_mismatches("print", PRE, lambda lo, hi: "[" + ";\n ".join(cases[lo:hi]) + "]", chk, len(cases))
     if not ok:
@@ -891,8 +952,8 @@ def correspondence(env):
     for (v, e), d in texts_by_tree.items():
         if True in d and False in d:
             ntext += 1
-            if d[True] != d[False]:
-                env.fail({"function": "vy_print", "value": v, "end": e}, f"online_output[1] gets {d[True][:60]!r}, offline stdout {d[False][:60]!r}", cls="C19:output-record")
+            if d[True][0] != d[False][0]:
+                env.fail({"function": "vy_print", "value": d[True][1], "end": e}, f"online_output[1] gets {d[True][0][:60]!r}, offline stdout {d[False][0][:60]!r}", cls="C19:output-record")
     env.count(len(cases), (f"print:{m['value']}:{m['online']}:{m['end']!r}" for m in meta if m["value"] not in ("PScalar", "PList")))
     env.note("vy_print_cases", {"values": len(trees), "cases": len(cases), "online_vs_offline_text_compared": ntext,
                                 "max_trace_len": max([m["impl_trace_len"] for m in meta] or [0])})
@@ -919,7 +980,7 @@ def correspondence(env):
         kind = "TString" if isinstance(top, str) else "TOther"
         cases.append(f"((({cb(w == 'call')}, {cb(o)}), {kind}), {ceffs(r)})")
         meta.append({"function": "function_call" if w == "call" else "vy_exec", "top": top, "online": o, "impl_trace": r})
-    chk = ("fun c => match c with (((w, o), k), tr) => effs_eqb (if w then function_call_trace (md o) k else vy_exec_trace (md o) k) tr end")
+    chk = ("fun c => match c with (((w, o), k), tr) => effs_eqb (if (w : bool) then function_call_trace (md o) k else vy_exec_trace (md o) k) tr end")
     ok, bad, logs = env.coq_mismatches("call", PRE, lambda lo, hi: "[" + ";\n ".join(cases[lo:hi]) + "]", chk, len(cases))
     if not ok:
         env.proof_broken("function_call correspondence cases failed to evaluate", logs)
@@ -1001,10 +1062,16 @@ def run(env):
                 "CORRESPONDENCE (model evaluated in Coq): vy_eval on generated benign texts x both modes (trace + value/unchanged), vy_print on random value shapes (scalar, list, function, lazy list with cached prefix, nested) x both modes "
                 "(number and kind of output effects; online text = offline text), function_call/vy_exec on strings and numbers, execute_vyxal on generated scenarios (inputs, flags c O o Ṡ, body of prints/E/†/Ė, raising body, transpile failure, final value that prints or raises) x both modes. "
                 "Non-trivial = the run involves a user text, an input, a printing element or an error / the value is not a bare scalar; distinct by canonical input.")
+    import time
+    t0 = time.time()
     sink_summary(env)
     correspondence(env)
+    t1 = time.time()
     oracle(env)
+    t2 = time.time()
     out_of_scope_probes(env)
+    env.note("phase_seconds", {"correspondence": round(t1 - t0, 1), "oracle": round(t2 - t1, 1), "probes": round(time.time() - t2, 1)})
+    V.log(f"[C19] correspondence {t1 - t0:.1f}s, oracle {t2 - t1:.1f}s")
     env.assume("host-level effects (what reaches the host's stdout, what the interpreter compiles and executes) are OBSERVED on the runs above through audit events, not proved: the C19 claim is partial there")
     env.assume("the sink table is syntactic: call sites of the builtin names / dotted names listed in tools/gen_sinks.py in vyxal/*.py and in string constants that parse as Python; "
                "getattr/importlib tricks, sinks inside sympy or the standard library, and flask_app.py are outside it")
